@@ -43,8 +43,12 @@ type TrafficControllerMap map[string][]*TrafficShapingController
 var (
 	tcGenFuncMap = make(map[trafficControllerGenKey]TrafficControllerGenFunc, 6)
 	tcMap        = make(TrafficControllerMap)
-	tcMux        = new(sync.RWMutex)
-	nopStat      = &standaloneStatistic{
+	// assocStandaloneTcMap indexes, by REFERENCED resource, the controllers of associated
+	// rules that own a standalone statistic: that statistic has to count the traffic of
+	// the referenced resource. It is rebuilt (under tcMux) whenever tcMap changes.
+	assocStandaloneTcMap = make(TrafficControllerMap)
+	tcMux                = new(sync.RWMutex)
+	nopStat              = &standaloneStatistic{
 		reuseResourceStat: false,
 		readOnlyMetric:    base.NopReadStat(),
 		writeOnlyMetric:   base.NopWriteStat(),
@@ -222,6 +226,7 @@ func onRuleUpdate(rawResRulesMap map[string][]*Rule) (err error) {
 
 	tcMux.Lock()
 	tcMap = m
+	rebuildAssocStandaloneIndexLocked()
 	tcMux.Unlock()
 	currentRules = rawResRulesMap
 
@@ -290,6 +295,7 @@ func onResourceRuleUpdate(res string, rawResRules []*Rule) (err error) {
 	} else {
 		tcMap[res] = newResTcs
 	}
+	rebuildAssocStandaloneIndexLocked()
 	tcMux.Unlock()
 	currentRules[res] = rawResRules
 	logging.Debug("[Flow onResourceRuleUpdate] Time statistic(ns) for updating flow rule", "timeCost", util.CurrentTimeNano()-start)
@@ -312,6 +318,7 @@ func LoadRulesOfResource(res string, rules []*Rule) (bool, error) {
 		// clear tcMap
 		tcMux.Lock()
 		delete(tcMap, res)
+		rebuildAssocStandaloneIndexLocked()
 		tcMux.Unlock()
 		logging.Info("[Flow] clear resource level rules", "resource", res)
 		return true, nil
@@ -507,6 +514,30 @@ func RemoveTrafficShapingGenerator(tokenCalculateStrategy TokenCalculateStrategy
 		controlBehavior:        controlBehavior,
 	})
 	return nil
+}
+
+// rebuildAssocStandaloneIndexLocked must be called with tcMux held for writing.
+func rebuildAssocStandaloneIndexLocked() {
+	m := make(TrafficControllerMap)
+	for _, tcs := range tcMap {
+		for _, tc := range tcs {
+			if tc == nil || tc.rule == nil || tc.rule.RelationStrategy != AssociatedResource {
+				continue
+			}
+			if tc.boundStat.reuseResourceStat || tc.boundStat.writeOnlyMetric == nil {
+				continue
+			}
+			m[tc.rule.RefResource] = append(m[tc.rule.RefResource], tc)
+		}
+	}
+	assocStandaloneTcMap = m
+}
+
+func getAssociatedStandaloneControllersFor(refResource string) []*TrafficShapingController {
+	tcMux.RLock()
+	defer tcMux.RUnlock()
+
+	return assocStandaloneTcMap[refResource]
 }
 
 func getTrafficControllerListFor(name string) []*TrafficShapingController {
